@@ -23,6 +23,10 @@ quantizer slots of one layer (every class with >= 2 slots) and of two layers, ti
 semantics (driver op `shared`) and judged by the three-route oracle (get_quantizers() strings!); tie
 `reported-quantizers` on every layer of every stream; stream `sigmoid-mode` — build under
 set_internal_sigmoid(A), switch to B, routes, compare original and copies under B and back under A.
+
+Strengthening round (seeds C13-9 / C13-10): base-class keyword arguments (`baseKwargs` table; adapter reads them
+from live attributes; stream `array-args:basekw`, layer-level clause `layer-config`, `layer-output-differs` in
+every route) and the caller's own `custom_objects` on the three routes (stream `user-objects`, tie `route-table`).
 """
 import fractions
 import json
@@ -164,7 +168,18 @@ def layer_json(layer, spec, qparams):
     # the layer is still read from its attributes; the model is asked whether get_config raises
     cfg, cfg_exc = {}, e
   pnames = [p["name"] for p in spec["params"]]
-  kwargs = [[k, enc_pv(json_canon(v))] for k, v in cfg.items() if k not in pnames]
+  # forwarded keyword arguments: those of the class' Keras base classes that the model's table says
+  # get_config writes are read from the live ATTRIBUTE (not from the config the model is compared with);
+  # the generic Layer keys (name, trainable, dtype) and object-valued ones come from the config
+  plain = (type(None), bool, int, float, str, np.integer, np.floating, np.bool_)
+  held = {}
+  for b in spec.get("base_kwargs", []):
+    if b["emitted"] and hasattr(layer, b["name"]):
+      v = getattr(layer, b["name"])
+      if isinstance(v, plain) or (isinstance(v, (list, tuple)) and all(isinstance(z, plain) for z in v)):
+        held[b["name"]] = v
+  kwargs = [[k, enc_pv(json_canon(held.get(k, v)))] for k, v in cfg.items() if k not in pnames]
+  kwargs += [[k, enc_pv(json_canon(v))] for k, v in held.items() if k not in cfg and cfg_exc is None]
   args = []
   from_cfg = []
   for p in spec["params"]:
@@ -228,7 +243,7 @@ def layer_json(layer, spec, qparams):
         args.append([name, {"init": {"keras": enc_pv(json_canon(tf.keras.initializers.serialize(i)))}}])
     else:
       raise core.InfraError("kind %s" % k)
-  return {"cls": cls, "kwargs": kwargs, "args": args, "cfg_exc": cfg_exc}, from_cfg
+  return {"cls": cls, "kwargs": kwargs, "args": args, "cfg_exc": cfg_exc, "held_kw": {k: json.dumps(enc_pv(json_canon(v)), sort_keys=True) for k, v in held.items()}}, from_cfg
 
 
 def lj2_exc(layer):
@@ -272,32 +287,51 @@ def quantizer_strings(model):
 
 # ----------------------------------------------------------------------------- routes
 
-def run_routes(model, x, scratch, branches=None, eager=False):
+def layer_shapes(model):
+  """(name, output shape, dtype) of every layer: what a model ending at that layer would predict"""
+  out = []
+  for l in model.layers:
+    try:
+      out.append((l.name, str(l.output_shape), str(getattr(l, "dtype", None))))
+    except Exception as e:  # pylint: disable=broad-except
+      out.append((l.name, "<%s>" % type(e).__name__, ""))
+  return out
+
+
+def run_routes(model, x, scratch, branches=None, eager=False, custom_objects=None, scope=None, on_route=None):
   """the three routes on the real code -> {route: (status, detail, model2)}.
+  custom_objects: the CALLER's dict, handed to every route as its `custom_objects` argument (the same
+  dict object for the three routes, one after the other); scope: a dict installed with
+  `tf.keras.utils.custom_object_scope` around every route instead.
   eager: `predict` runs with `run_eagerly` on the original and on every rebuilt model (the packed
   many-branch models: tracing their predict function four times dominates the run otherwise)"""
+  import contextlib
+  import tensorflow as tf
   from qkeras.utils import clone_model, quantized_model_from_json, load_qmodel
   if eager:
     model.run_eagerly = True
   y0 = np.asarray(model.predict(x, verbose=0))
   q0 = quantizer_strings(model)
+  s0 = layer_shapes(model)
   res = {}
   branches = branches or []
+  kw = {} if custom_objects is None else {"custom_objects": custom_objects}
   for r in ROUTES:
     m2 = None
     try:
-      if r == "json":
-        m2 = quantized_model_from_json(model.to_json())
-        m2.set_weights(model.get_weights())
-      elif r == "clone":
-        m2 = clone_model(model)
-      else:
-        path = os.path.join(scratch, "m.h5")
-        if os.path.exists(path):
+      with (tf.keras.utils.custom_object_scope(scope) if scope is not None else contextlib.nullcontext()):
+        if r == "json":
+          m2 = quantized_model_from_json(model.to_json(), **kw)
+          m2.set_weights(model.get_weights())
+        elif r == "clone":
+          m2 = clone_model(model, **kw)
+        else:
+          path = os.path.join(scratch, "m.h5")
+          if os.path.exists(path):
+            os.remove(path)
+          model.save(path)
+          m2 = load_qmodel(path, compile=False, **kw)
           os.remove(path)
-        model.save(path)
-        m2 = load_qmodel(path, compile=False)
-        os.remove(path)
       if eager:
         m2.run_eagerly = True
       y = np.asarray(m2.predict(x, verbose=0))
@@ -305,6 +339,8 @@ def run_routes(model, x, scratch, branches=None, eager=False):
       if y.shape != y0.shape or y.tobytes() != y0.tobytes():
         d = float(np.max(np.abs(y.astype(np.float64) - y0.astype(np.float64)))) if y.shape == y0.shape else -1.0
         detail = {"max_abs_diff": d}
+        if y.shape != y0.shape:
+          detail.update(original_output_shape=list(y0.shape), rebuilt_output_shape=list(y.shape))
         if branches and y.shape == y0.shape:
           # the model concatenates one output slice per branch: name the branches that differ
           detail["branches_that_differ"] = [lab for lab, (a, b) in branches
@@ -312,10 +348,18 @@ def run_routes(model, x, scratch, branches=None, eager=False):
         res[r] = ("predict-differs", detail, m2)
       elif q != q0:
         res[r] = ("quantizers-differ", {"before": q0, "after": q}, m2)
+      elif layer_shapes(m2) != s0:
+        # same bytes at the model's outputs, but a layer inside has another output shape / dtype (hidden
+        # by a Flatten / Reshape behind it): a model ENDING at that layer predicts differently
+        s2 = dict((n, (sh, dt)) for n, sh, dt in layer_shapes(m2))
+        res[r] = ("layer-output-differs", {"layers": [{"layer": n, "original": [sh, dt], "rebuilt": list(s2.get(n, ("<missing>", "")))}
+                                                      for n, sh, dt in s0 if s2.get(n) != (sh, dt)][:6]}, m2)
       else:
         res[r] = ("ok", {}, m2)
     except Exception as e:  # pylint: disable=broad-except
       res[r] = ("raises", {"exception": type(e).__name__, "message": str(e)[:300].replace("\n", " ")}, None)
+    if on_route is not None:
+      on_route(r)
   return res
 
 
@@ -1029,6 +1073,222 @@ def shared_role_branches(rng, tier, specs, qparams, trainable_classes):
   return [((5,),), ((5, 5, 2),), ((3, 4),), ((6, 3),)], out
 
 
+
+BASE_KW_INPUT = {"QDense": 0, "QScaleShift": 0, "QBatchNormalization": 0, "QActivation": 0, "QAdaptiveActivation": 0,
+                 "QConv1D": 3, "QSeparableConv1D": 3, "QSimpleRNN": 2, "QLSTM": 2, "QGRU": 2,
+                 "QSimpleRNNCell": 2, "QLSTMCell": 2, "QGRUCell": 2}
+
+
+def base_kwarg_layer(cls_name, specs, kw, name=None):
+  """a layer of class `cls_name` with the base-class keyword arguments `kw`, a quantizer in every
+  quantizer slot (so that the library's own call path runs)"""
+  import qkeras as Q
+  args = dict(T.SAMPLE_ARGS[cls_name])
+  for p in specs[cls_name]["params"]:
+    if p["kind"]["k"] == "quant" and p["name"] != "inverse_quantizer":
+      args[p["name"]] = Q.quantized_bits(6, 1, 1, alpha=1.0) if p["name"].startswith(("state", "average")) \
+          else Q.quantized_bits(4, 0, 1, alpha=1.0)
+  args.update(kw)
+  if name is not None:
+    args["name"] = name
+  return getattr(Q, cls_name)(**args)
+
+
+def base_kwarg_branches(rng, tier, specs):
+  """constructor arguments of the KERAS base class that a library class accepts through **kwargs
+  (model table `baseKwargs`, observed live along the MRO): every (class, argument) pair that the
+  inference computation reads, built with a legal non-default value (keepdims=True, groups=2,
+  data_format='channels_first', time_major=True), one argument at a time.  The branch output shape is
+  part of the judgement (`layer-output-differs`; the branch re-run ends at the layer itself)."""
+  import tensorflow as tf
+  del rng
+  out = []
+  for cls_name in sorted(specs):
+    if cls_name in EXCLUDED or (cls_name.endswith("Cell") and tier == "quick"):
+      continue
+    for b in specs[cls_name].get("base_kwargs", []):
+      if not (b["read"] or tier != "quick") or b["name"] not in T.BASE_KWARG_VALUES:
+        continue
+      if b["name"] == "time_major":
+        continue          # (time, batch) inputs do not fit a packed model: layer-level tie + own model below
+      v = T.BASE_KWARG_VALUES[b["name"]]
+      wrap = (lambda l: tf.keras.layers.RNN(l)) if cls_name.endswith("Cell") else (lambda l: l)
+      out.append(dict(label="%s(%s=%r) [argument of the Keras base class, through **kwargs]" % (cls_name, b["name"], v),
+                      cls=cls_name, inp=BASE_KW_INPUT.get(cls_name, 1),
+                      make=lambda name, c=cls_name, k=b["name"], v=v, wrap=wrap: wrap(base_kwarg_layer(c, specs, {k: v}, name)),
+                      key={"layer": cls_name, "qclass": "base-kwargs", "option": "%s=%r" % (b["name"], v)}))
+  return [((5,),), ((6, 6, 2),), ((3, 4),), ((6, 4),)], out
+
+
+def base_kwarg_layer_ties(run, specs):
+  """layer level, every (class, base-class argument) pair of the model's table (read or not, written by
+  get_config or not): build with a non-default value, `cls.from_config(get_config())`; is the attribute
+  of the rebuilt layer the original's?  -> [(label, cls, kw, value, live_same)] for the driver op
+  `base_kwargs` (model: same iff get_config writes the key)"""
+  import tensorflow as tf
+  out = []
+  co = T.custom_objects()
+  def attr(layer, k):
+    v = getattr(layer, k, getattr(layer, "_" + k, "<no attribute>"))
+    if v is None or isinstance(v, (bool, int, float, str)):
+      return v
+    try:
+      return json.dumps(json_canon(tf.keras.utils.serialize_keras_object(v)), sort_keys=True, default=str)
+    except Exception:  # pylint: disable=broad-except
+      return repr(v)
+  for cls_name in sorted(specs):
+    if cls_name in EXCLUDED:
+      continue
+    for b in specs[cls_name].get("base_kwargs", []):
+      if b["name"] not in T.BASE_KWARG_VALUES:
+        continue
+      v = T.BASE_KWARG_VALUES[b["name"]]
+      label = "%s(%s=%r)" % (cls_name, b["name"], v)
+      try:
+        layer = base_kwarg_layer(cls_name, specs, {b["name"]: v})
+        a1 = attr(layer, b["name"])
+        with tf.keras.utils.custom_object_scope(co):
+          l2 = layer.__class__.from_config(layer.get_config())
+        a2 = attr(l2, b["name"])
+      except Exception as e:  # pylint: disable=broad-except
+        run.count("build_failed")
+        run.extra.setdefault("build_failed", []).append({"label": label, "error": "%s: %s" % (type(e).__name__, str(e)[:160])})
+        continue
+      if a1 == "<no attribute>":
+        run.count("base_kwarg_without_attribute")
+        continue
+      out.append(dict(label=label, cls=cls_name, kw=b["name"], value=v, read=b["read"], live_same=(a1 == a2),
+                      original=a1, rebuilt=a2))
+  return out
+
+
+def user_objects_stream(run, rng, tier, scratch):
+  """the CALLER's `custom_objects` on the three routes.  Library-only models reloaded with a dict that is
+  empty, names an unrelated class of the caller, lists some library classes, or is an OrderedDict; models
+  that also hold objects of the caller (a layer class, an activation function used by a stock Activation
+  layer, a regularizer class on a QDense) reloaded with a dict naming ONLY the caller's objects, the
+  caller's objects plus some library classes, and through `custom_object_scope` without the argument.
+  The same dict object goes to the three routes one after the other and must come back untouched.
+  Clauses: no route raises, predictions bit-identical, same quantizers — library classes never have to
+  be listed by the caller.  Tie: the names that resolve INSIDE the scope a route installs (observed from
+  the caller's layer's `from_config`) vs the model's `routeTable`."""
+  import collections
+  import tensorflow as tf
+  import qkeras as Q
+  L = tf.keras.layers
+  seen = {}
+
+  class UserClip(L.Layer):
+    """a layer class of the caller: not qkeras, not Keras"""
+
+    def __init__(self, gain=0.75, **kwargs):
+      super().__init__(**kwargs)
+      self.gain = gain
+
+    def call(self, inputs):
+      return tf.clip_by_value(self.gain * inputs, -2.0, 2.0)
+
+    def get_config(self):
+      return dict(super().get_config(), gain=self.gain)
+
+    @classmethod
+    def from_config(cls, config):
+      # which names resolve in the custom-object scope the route installed?
+      try:
+        from tf_keras.src.saving import object_registration as reg
+        seen["names"] = sorted(set(reg._THREAD_LOCAL_CUSTOM_OBJECTS.__dict__) | set(reg._GLOBAL_CUSTOM_OBJECTS))  # pylint: disable=protected-access
+      except Exception:  # pylint: disable=broad-except
+        seen["names"] = None
+      return cls(**config)
+
+  class UserL2(tf.keras.regularizers.Regularizer):
+    def __init__(self, k=0.01):
+      self.k = k
+    def __call__(self, w):
+      return self.k * tf.reduce_sum(tf.square(w))
+    def get_config(self):
+      return {"k": self.k}
+
+  class UserInit(tf.keras.initializers.Initializer):
+    def __init__(self, v=0.25):
+      self.v = v
+    def __call__(self, shape, dtype=None, **kwargs):
+      return tf.fill(shape, tf.cast(self.v, dtype or tf.float32))
+    def get_config(self):
+      return {"v": self.v}
+
+  qb = lambda b=4: Q.quantized_bits(b, 0, 1, alpha=1.0)
+  def build(with_user):
+    tf.keras.backend.clear_session()
+    inp = L.Input((6, 6, 2), name="uo_in")
+    y = Q.QConv2D(3, (2, 2), kernel_quantizer=Q.quantized_bits(4, 0, 1), bias_quantizer="quantized_bits(4,0,1)", name="uo_conv")(inp)
+    y = Q.QActivation(Q.quantized_relu(5, 2), name="uo_act")(y)
+    y = Q.QGlobalAveragePooling2D(average_quantizer=qb(8), name="uo_pool")(y)
+    if with_user:
+      y = UserClip(gain=0.625, name="uo_user_layer")(y)
+    y = Q.QDense(4, kernel_quantizer="quantized_bits(5,0,1,alpha='auto')", bias_quantizer=qb(5),
+                 kernel_regularizer=UserL2(0.02) if with_user else None,
+                 bias_initializer=UserInit(0.25) if with_user else "zeros", name="uo_dense")(y)
+    y = Q.QActivation("quantized_bits(6,2,1)", name="uo_out")(y)
+    m = tf.keras.Model(inp, y)
+    randomize_weights(m, rng)
+    return m
+
+  user = {"UserClip": UserClip, "UserInit": UserInit, "UserL2": UserL2}
+  lib = {"QDense": Q.QDense, "quantized_bits": Q.quantized_bits}
+  forms = [
+      (False, "custom_objects={}", dict(custom_objects={})),
+      (False, "custom_objects={'UserClip': <a class of the caller that the model does not use>}", dict(custom_objects={"UserClip": UserClip})),
+      (False, "custom_objects={'QDense': QDense, 'quantized_bits': quantized_bits} (some library classes)", dict(custom_objects=dict(lib))),
+      (True, "custom_objects={the caller's layer class, initializer class and regularizer class only}", dict(custom_objects=dict(user))),
+      (True, "no custom_objects argument, the caller's objects installed with custom_object_scope", dict(scope=dict(user))),
+  ]
+  if tier != "quick":
+    forms.append((True, "custom_objects={the caller's objects + QDense + quantized_bits} as OrderedDict",
+                  dict(custom_objects=collections.OrderedDict(list(user.items()) + list(lib.items())))))
+    forms.append((False, "custom_objects=OrderedDict()", dict(custom_objects=collections.OrderedDict())))
+    forms.append((False, "custom_objects={'my_fn': <function of the caller>}", dict(custom_objects={"my_fn": (lambda v: v)})))
+  ties = []
+  models = {}
+  x = (rng.normal(0, 1, (4, 6, 6, 2)) * 2).astype(np.float32)
+  for with_user, flabel, kw in forms:
+    if with_user not in models:
+      models[with_user] = build(with_user)
+    model = models[with_user]
+    mlabel = ("QConv2D -> QActivation -> QGlobalAveragePooling2D -> %sQDense%s -> QActivation" %
+              (("UserClip (layer class of the caller) -> ", "(kernel_regularizer / bias_initializer: classes of the caller)")
+               if with_user else ("", "")))
+    label = "%s; reloaded with %s" % (mlabel, flabel)
+    run.case(("user-objects", with_user, flabel), sample={"stream": "user-objects", "model": label} if "only" in flabel else None)
+    run.count("user_objects_form")
+    co = kw.get("custom_objects")
+    before = None if co is None else list(co.items())
+    seen_by_route = {}
+    seen.pop("names", None)
+    def on_route(r, seen_by_route=seen_by_route):
+      seen_by_route[r] = seen.pop("names", None)
+    res = run_routes(model, x, scratch, eager=True, on_route=on_route, **kw)
+    for r in ROUTES:
+      status, detail, _ = res[r]
+      run.compared += 1
+      run.count("user_objects_route_%s_%s" % (r, status))
+      if status != "ok":
+        key = {"layer": "model-with-caller-objects" if with_user else "library-only-model", "qclass": "custom_objects",
+               "option": flabel.split(" (")[0][:80], "route": r, "failure": status}
+        if status == "raises":
+          key["exception"] = detail.get("exception")
+        run.violate("route", key, dict(detail, model=label, route=r, status=status,
+                                       replay="build the model described by `model`; qkeras.utils %s route with %s" % (r, flabel)),
+                    mirrored=False)
+      if with_user and co is not None:
+        ties.append((label, r, sorted(co.keys()), seen_by_route[r]))
+    if co is not None:
+      run.compared += 1
+      if list(co.items()) != before:
+        run.disagree("user-dict-untouched", {"model": label}, sorted(map(str, co.keys())), sorted(str(k) for k, _ in before))
+  return ties
+
+
 SIGMOID_MODES = ("hard", "smooth", "real")
 
 
@@ -1340,6 +1600,8 @@ def static_tie(run, model_tables):
         [(p["name"], p["kind"], p["read"]) for p in b["params"]])
     cmp("static-layer-flags", name, (a["none_is_linear"], a["hook"]), (b["none_is_linear"], b["hook"]))
     cmp("static-layer-reported-slots", name, a["reports"], b.get("reports"))
+    cmp("static-layer-base-kwargs", name, [(z["name"], dec_pv(z["default"]), z["emitted"], z["read"]) for z in a["base_kwargs"]],
+        [(z["name"], dec_pv(z["default"]), z["emitted"], z["read"]) for z in b.get("base_kwargs", [])])
   cmp("static-custom-object-table", "keys", live["custom_objects"], model_tables["custom_objects"])
   cmp("static-keras-activation-names", "names", live["keras_activation_names"], model_tables.get("keras_activation_names"))
   # clause oracle on the table itself: inside the custom-object scope custom names win, so a key
@@ -1391,7 +1653,10 @@ def run(run: core.Run, tier: str):
       "branch per quantizer OBJECT carrying non-default options, layers whose non-None-default quantizer / "
       "activation arguments are explicitly None, trained-EMA models, one quantizer OBJECT shared between several "
       "quantizer slots of one layer / of two layers (every layer class with >= 2 slots), and models built under one "
-      "set_internal_sigmoid mode and round-tripped / evaluated under another. "
+      "set_internal_sigmoid mode and round-tripped / evaluated under another, every layer class with each base-class "
+      "keyword argument it accepts through **kwargs at a non-default value (keepdims, groups, data_format, time_major), "
+      "and models reloaded with a custom_objects argument of the caller (empty, unrelated class, some library classes, "
+      "the caller's own layer / regularizer / initializer classes, custom_object_scope). "
       "Per model: 3 routes on the real code (clause oracle), and per library layer: get_config vs "
       "layerGetConfig and reloaded attributes vs layerFromConfig. non-trivial = distinct (layer kind, "
       "quantizer classes, options) combination")
@@ -1419,8 +1684,10 @@ def run(run: core.Run, tier: str):
   n_clean = {"quick": 2, "thorough": 8}.get(tier, 2)
   # quick: ONE model per layer kind — the first draw or the second (bias-less) one, alternating with the
   # kind and the seed (22 instead of 44 models: the run time went to the shared-roles and sigmoid-mode streams)
-  clean_reps = lambda ki: range(n_clean) if tier != "quick" else [(ki + run.seed) % 2]
-  n_dag = {"quick": 4, "thorough": 16}.get(tier, 4)
+  # (round U13: every third kind is left out per seed, rotating — each kind occurs for 2 of 3 consecutive
+  # seeds — and 3 DAG models instead of 4: the run time went to the base-kwargs and user-objects streams)
+  clean_reps = lambda ki: range(n_clean) if tier != "quick" else ([] if (ki + run.seed) % 3 == 2 else [(ki + run.seed) % 2])
+  n_dag = {"quick": 3, "thorough": 16}.get(tier, 3)
   pending = []   # (meta, driver line) — the driver is called once at the end
 
   def real_raises(what, key_base, label, path, cls, e):
@@ -1451,11 +1718,13 @@ def run(run: core.Run, tier: str):
       try:
         lj, _ = layer_json(layer, specs[cls], qparams)
         cfg_exc = lj.pop("cfg_exc")
+        held_kw = lj.pop("held_kw")
         real_cfg = None if cfg_exc is not None else json_canon(layer.get_config())
       except Exception as e:  # pylint: disable=broad-except
         real_raises("get_config", key_base, label, path, cls, e)
         continue
       reloaded = {}
+      kw_changed = {}
       for r in ROUTES:
         m2 = res[r][2]
         if m2 is None:
@@ -1467,8 +1736,10 @@ def run(run: core.Run, tier: str):
             reloaded[r] = "missing"
             continue
           lj2, _ = layer_json(l2, specs[cls], qparams)
+          held_kw2 = lj2.pop("held_kw")
           if lj2.pop("cfg_exc") is not None:
             raise lj2_exc(l2)
+          kw_changed[r] = sorted(k for k in held_kw if held_kw2.get(k) != held_kw[k])
         except Exception as e:  # pylint: disable=broad-except
           real_raises("get_config", dict(key_base, route=r), label + " (rebuilt)", path, cls, e)
           reloaded[r] = "unreadable"
@@ -1483,6 +1754,7 @@ def run(run: core.Run, tier: str):
         real_raises("get_quantizers", key_base, label, path, cls, e)
         reported_live = None
       layers.append(dict(path=path, cls=cls, lj=lj, real_cfg=real_cfg, reloaded=reloaded, reported_live=reported_live,
+                         kw_changed=kw_changed,
                          cfg_exc=None if cfg_exc is None else
                          {"exception": type(cfg_exc).__name__, "message": str(cfg_exc)[:300].replace("\n", " ")}))
       pending.append((len(models), len(layers) - 1, {"op": "layer", "layer": lj}))
@@ -1520,11 +1792,13 @@ def run(run: core.Run, tier: str):
         try:
           f, _ = layer_json(l.layer, specs[l.layer.__class__.__name__], qparams)
           f.pop("cfg_exc")
+          f.pop("held_kw")
           cfg = l.get_config()
           b = None
           if "backward_layer" in cfg:
             b, _ = layer_json(l.backward_layer, specs[l.backward_layer.__class__.__name__], qparams)
             b.pop("cfg_exc")
+            b.pop("held_kw")
             stored = cfg["backward_layer"]["config"]["name"]
             b["kwargs"] = [[k, (stored if k == "name" else v)] for k, v in b["kwargs"]]
           kw = [[k, enc_pv(json_canon(v))] for k, v in cfg.items() if k not in ("layer", "backward_layer")]
@@ -1770,7 +2044,7 @@ def run(run: core.Run, tier: str):
         try:
           inp = L.Input(in_shapes[b["inp"]][0])
           layer = b["make"](name)
-          single = tf.keras.Model(inp, L.Flatten(name=name + "_flat")(layer(inp)))
+          single = tf.keras.Model(inp, layer(inp))     # the branch's own output (shape included), not flattened
           layer.set_weights(weights[name])
           single.run_eagerly = True
           single.predict(xs[b["inp"]], verbose=0)
@@ -1791,6 +2065,7 @@ def run(run: core.Run, tier: str):
     for group, fn in (("mask", mask_branches), ("tuple", tuple_branches), ("qlist", quantizer_list_branches),
                       ("alpha", lambda r, t: default_alpha_branches(r, t, trainable_classes)),
                       ("shared", lambda r, t: shared_role_branches(r, t, specs, qparams, trainable_classes)),
+                      ("basekw", lambda r, t: base_kwarg_branches(r, t, specs)),
                       ("keras", keras_names)):
       in_shapes, branches = fn(rng, tier)
       t0 = _time.time()
@@ -1829,13 +2104,45 @@ def run(run: core.Run, tier: str):
     t0 = _time.time()
     sigmoid_mode_stream(run, rng, tier, scratch)
     stream_wall["sigmoid-mode (build included)"] = round(_time.time() - t0, 1)
+
+    # ---------------- stream 10: base-class keyword arguments, layer level (every pair of the table) and
+    #                  time_major (a model of its own: the input is (time, batch, features))
+    t0 = _time.time()
+    basekw_ties = base_kwarg_layer_ties(run, specs)
+    for cls_name in (("QSimpleRNN", "QLSTM", "QGRU") if tier != "quick" else (("QSimpleRNN", "QLSTM", "QGRU")[run.seed % 3],)):
+      if not any(b["name"] == "time_major" for b in specs[cls_name].get("base_kwargs", [])):
+        continue
+      tf.keras.backend.clear_session()
+      label = "%s(2, time_major=True) [argument of the Keras base class, through **kwargs]" % cls_name
+      try:
+        inp = L.Input((3, 4))
+        model = tf.keras.Model(inp, base_kwarg_layer(cls_name, specs, {"time_major": True})(inp))
+        randomize_weights(model, rng)
+        x = rng.normal(0, 1, (3, 3, 4)).astype(np.float32)
+        model.run_eagerly = True
+        model.predict(x, verbose=0)
+      except Exception as e:  # pylint: disable=broad-except
+        run.count("build_failed")
+        run.extra.setdefault("build_failed", []).append({"label": label, "error": "%s: %s" % (type(e).__name__, str(e)[:160])})
+        continue
+      run.case(("base-kwargs", label))
+      run.count("basekw_" + cls_name)
+      add_model("base-kwargs", label, {"layer": cls_name, "qclass": "base-kwargs", "option": "time_major=True"}, model, x, eager=True)
+    stream_wall["base-kwargs (layer ties + time_major)"] = round(_time.time() - t0, 1)
+
+    # ---------------- stream 11: the caller's own custom_objects on the three routes
+    t0 = _time.time()
+    user_ties = user_objects_stream(run, rng, tier, scratch)
+    stream_wall["user-objects (build included)"] = round(_time.time() - t0, 1)
   finally:
     shutil.rmtree(scratch, ignore_errors=True)
     __import__("qkeras").set_internal_sigmoid("hard")
 
   # ---------------- model side, one driver call
   outs = core.run_driver("C13", [p[2] for p in pending] + [{"op": "mask", "mask": given} for _, given, _ in mask_ties]
-                         + [{"op": "shared", "cls": t["cls"], "heap": t["heap"], "refs": t["refs"]} for _, t in shared_ties])
+                         + [{"op": "shared", "cls": t["cls"], "heap": t["heap"], "refs": t["refs"]} for _, t in shared_ties]
+                         + [{"op": "base_kwargs", "cls": t["cls"], "user": [[t["kw"], enc_pv(canon(t["value"]))]]} for t in basekw_ties]
+                         + [{"op": "route_table", "route": r, "user": keys} for _, r, keys, _ in user_ties])
   by_model = {}
   for (mi, li, _), o in zip(pending, outs):
     by_model.setdefault(mi, {})[li] = o
@@ -1868,6 +2175,38 @@ def run(run: core.Run, tier: str):
         run.disagree("shared-constructor-reported", {"model": label, "class": t["cls"], "refs": t["refs"]},
                      [qj_short(json.loads(z)) for z in lrep], [qj_short(json.loads(z)) for z in mrep])
     run.count("shared_constructor_tied")
+
+  # base-class keyword arguments, layer level: the attribute of `cls.from_config(get_config())` is the
+  # original's iff the model says so (get_config writes the key); a READ argument that changes is the
+  # clause failing on that layer
+  off = len(pending) + len(mask_ties) + len(shared_ties)
+  for t, o in zip(basekw_ties, outs[off:]):
+    run.compared += 1
+    held, rebuilt = dec_pv(o["held"]), dec_pv(o["rebuilt"])
+    model_same = held.get(t["kw"]) == rebuilt.get(t["kw"])
+    run.count("base_kwarg_layer_tied")
+    if model_same != t["live_same"]:
+      run.disagree("base-kwargs-roundtrip", {"layer": t["label"], "class": t["cls"], "argument": t["kw"]},
+                   {"original": t["original"], "rebuilt": t["rebuilt"]}, {"model_says_same": model_same})
+    if t["read"] and not t["live_same"]:
+      run.violate("layer-config", {"layer": t["cls"], "qclass": "base-kwargs", "option": "%s=%r" % (t["kw"], t["value"]),
+                                   "failure": "read-argument-changes"},
+                  {"model": t["label"], "argument": t["kw"], "original_attribute": t["original"], "rebuilt_attribute": t["rebuilt"],
+                   "replay": "l = %s; l2 = type(l).from_config(l.get_config()) inside the library's custom-object scope; "
+                             "l.%s vs l2.%s" % (t["label"], t["kw"], t["kw"])}, mirrored=not model_same)
+  # the names that resolve inside the scope a route installs, seen from the caller's own layer class
+  off += len(basekw_ties)
+  for (label, r, keys, names), o in zip(user_ties, outs[off:]):
+    if names is None:
+      run.count("route_table_not_observed")
+      continue
+    run.compared += 1
+    want = sorted(set(o["keys"]))
+    got = sorted(set(names) & (set(want) | set(model_tables["custom_objects"]) | set(keys)))
+    run.count("route_table_tied")
+    if got != want:
+      run.disagree("route-table", {"model": label, "route": r, "caller_keys": keys},
+                   {"missing": sorted(set(want) - set(got)), "unexpected": sorted(set(got) - set(want))}, [])
 
   for mi, m in enumerate(models):
     predicted_bad = False      # model says a read argument changes / the rebuild raises
@@ -1941,6 +2280,10 @@ def run(run: core.Run, tier: str):
           elif sorted(rel["changed_read"]) != real:
             run.disagree("reload-attrs", {"model": m["label"], "layer": lay["path"], "class": lay["cls"], "route": r},
                          real, sorted(rel["changed_read"]))
+          elif lay["kw_changed"].get(r) and rel.get("kwargs_same"):
+            # a base-class keyword argument (keepdims, groups, time_major, ...) of the rebuilt layer differs
+            run.disagree("reload-kwargs", {"model": m["label"], "layer": lay["path"], "class": lay["cls"], "route": r},
+                         lay["kw_changed"][r], [])
     for wi, w in enumerate(m["wrappers"]):
       o = by_model[mi][-(wi + 1)]
       run.compared += 1
